@@ -27,7 +27,7 @@ ASSUMPTIONS = ["no independent oracle needed; equivalence of rewrites re-checked
 TECHNIQUE = "metamorphic property-based testing (presentation-changing, meaning-preserving transformations)"
 
 CFGS = ["p", "z", "w-rc2", "w-z3", "lex-rc2", "lex-z3", "c"]
-TRANSFORMS = ["rekey:zero", "rekey:sparse", "rekey:gap", "rekey:permuted", "reorder", "reorder:specific-first", "rename", "rename:internal",
+TRANSFORMS = ["equiv:duplicate", "rekey:zero", "rekey:sparse", "rekey:gap", "rekey:permuted", "reorder", "reorder:specific-first", "rename", "rename:internal",
               "signature", "equiv:base", "equiv:query", "condrewrite"]
 INTERNAL = ["eta_1", "eta_2", "mv_0", "mf_1", "mv_1", "gamma-_1", "eta_3"]
 
@@ -224,6 +224,19 @@ def apply_transform(t, atoms, base, queries, rnd):
         pos = rnd.randint(0, len(a))
         a = a[:pos] + extra + a[pos:]
         return a, base, queries, a != atoms
+    if t == "equiv:duplicate":
+        # one copy of an exactly duplicated conditional is rewritten (same verification and
+        # falsification sets); a base without a duplicate first gets one appended on BOTH sides,
+        # which is done by the caller through case["dup"]
+        texts = [fm.cond_text(B, A) for _, B, A in base]
+        dups = [i for i, tx in enumerate(texts) if texts.count(tx) >= 2]
+        if not dups:
+            return atoms, base, queries, False
+        i = rnd.choice(dups)
+        k, B, A = base[i]
+        items = list(base)
+        items[i] = (k, equiv_rewrite(B, rnd, atoms), A) if rnd.random() < 0.6 else (k, B, equiv_rewrite(A, rnd, atoms))
+        return atoms, items, queries, True
     if t in ("equiv:base", "equiv:query"):
         items = list(base if t == "equiv:base" else queries)
         if not items:
@@ -264,6 +277,10 @@ def run_case(case, ctx):
     atoms, base, queries = m
     if not queries or not base:
         return []
+    if "equiv:duplicate" in case.get("transforms", []) and len(base) <= 12:
+        # the ORIGINAL base carries an exact duplicate of one of its conditionals (a legal base)
+        j = case.get("tseed", 0) % len(base)
+        base = list(base) + [(max(k for k, _, _ in base) + 1, base[j][1], base[j][2])]
     from inference.consistency_sat import consistency_indices
     part, _ = consistency_indices(bridge.mk_bb(atoms, base), "z3", True)
     if part is False:
